@@ -12,1184 +12,1212 @@ Definition show_fres (r : fres) : string :=
   end.
 Definition check (rs : list rune) : string := digest (show_fres (format_res rs)).
 Definition full (rs : list rune) : string := show_fres (format_res rs).
-Eval vm_compute in ("<<<M41>>>" ++ check (runes_of_ascii "  root packet u{ match crc as
-leftPad { [ 00 ] : //
-o,  42
-    /// triple
-    :
-// trailing space 
-//x
-crc [
-""a	b"" ,
-""CRC32"" , ""a\""b"" , ""\n""
-, 0
-, 255 ] : // packet A { u8 x, }
-zchar ,
-// " ++ [128512]%N ++ runes_of_ascii " emoji
-//
-} //	t
-,	string stringy
-    @lengthOf(matchKey ),
-    int ,@tag(
-1)repeat	zchar[ 4294967296] roots , @leftPad ( '\x00'	) x
-    //x
-    @lengthOf( crc ), } packet// c
-repeatCount { zchar[ 255]	f32a	@calculatedFrom(
-    ""x y"" )
-,@tag(
-    255) char[] asx
-@calculatedFrom(""" ++ [28040; 24687]%N ++ runes_of_ascii """
-    // " ++ [27880; 37322]%N ++ runes_of_ascii "
-    ) , leftPad{
+Eval vm_compute in ("<<<M1874>>>" ++ check (runes_of_ascii "  options
 /// triple
-// a // b
-repeat int u8x ,
-i64
-trueish	@lengthOf(	i8i8 ) `" ++ [28040; 24687; 31867; 22411]%N ++ runes_of_ascii "`
-    // a // b
-    ,
-repeat
-int64 //	t
-pack
-    , } ,
-    match float as o { //
-65535
-:
-Pad ,[
-""" ++ [128512]%N ++ runes_of_ascii """ , """ ++ [28040; 24687]%N ++ runes_of_ascii """,
-    0123456789 ]
-//x
-// @lengthOf(
-:i8i8
-, 7 :
-asx 00: stringy } ,@calculatedFrom(
-""" ++ [233]%N ++ runes_of_ascii "t" ++ [233]%N ++ runes_of_ascii """ ) f32a
-// packet A { u8 x, }
-// trailing space 
-u , repeat msg_type `" ++ [233]%N ++ runes_of_ascii "` ,
-repeat zchar[
-42 ]crc
-    , uint64
-    // " ++ [27880; 37322]%N ++ runes_of_ascii "
-    lengthOf , repeat As``
-    ,
-zchar[ 007 ] tag `tab	here`  , }	root packet charz
-{
-    string msg_type , @calculatedFrom( """") repeat//	t
-string  tag `tab	here`
-    ,repeat calculatedFrom ,
-repeat Foo, uint64
-Foo@lengthOf( packetx) ,
-@rightPad  ( )	match	falsey as calculatedFrom { [ 0 , 10
-    , ""a\""b"" ] : metadata ,
-} , @calculatedFrom( ""\" ++ [233]%N ++ runes_of_ascii """ )
-    i64  As ``,
-    @lengthOf(
-rootA) u32 Logon // c
-@lengthOf(a1  ) , @calculatedFrom( """" ) @leftPad ( ' '
-    )
-    uint16
-i8i8
-@calculatedFrom( ""// no comment""
-) ,  } root packet// trailing space 
-uint8x {
-    repeat f32
-chars `tab	here` ,}
-MetaData calculatedFrom
-{
+
 //
-// `tick` ""quote"" 'q'
-metadata crc , }
 
-")).
-Eval vm_compute in ("<<<M1350>>>" ++ check (runes_of_ascii "// top
-options // c0a
-  // c0b
-{ // c1a
-  // c1b
-ArrayPrefixLenType // c2
-=
-    // c3
-u64 ; // c5
-FixedStringPadFromLeft // c6
-=
-    // c7
-true ; FixedStringPadChar // c10a
-  // c10b
-= // c11a
-  // c11b
-'0' ;
-    // c13
-}
-    // c14
-packet
-    // c15
-Quote
-    // c16
-{ } // c18a
-  // c18b
-packet Ack // c20
-{ repeat
-    // c22
-InNote66 // c23
-{ u8
-    // c25
-pad0
-    // c26
-,
-    // c27
-} , // c29
-} packet // c31a
-  // c31b
-Reject { // c33a
-  // c33b
-}
-    // c34
-root // c35
-packet // c36a
-  // c36b
-Order // c37
-{ // c38
-Quote // c39
-,
-    // c40
-repeat Reject // c42a
-  // c42b
-, // c43
-string venue // c45
-,
-    // c46
-string // c47
-seqNo
-    // c48
-, uint32 // c50a
-  // c50b
-Ref
-    // c51
-, // c52
-u16 // c53
-lastPx // c54a
-  // c54b
-, u32 clOrdID @lengthOf( Body // c59a
-  // c59b
-) // c60
-, // c61a
-  // c61b
-match lastPx
-    // c63
-as
-    // c64
-Body // c65
 {
-    // c66
-190 : Reject // c69a
-  // c69b
-, // c70
-186
-    // c71
-:
-    // c72
-Quote
-    // c73
-, // c74
-22 // c75
-: // c76
-Ack ,
-    // c78
-}
-    // c79
-, u16 // c81a
-  // c81b
-Flags // c82a
-  // c82b
-@calculatedFrom(
-    // c83
-""CRC32""
-    // c84
-) , // c86
-}
-    // c87
-")).
-Eval vm_compute in ("<<<M1539>>>" ++ check (runes_of_ascii "// top
-    options  
-  // c0
-    	{ // c1
-uint8x  // c2a
-    // c2b
-	  = 007	// c4a
-	  // c4b
-    ;lengthOf 
-    // c6
 
-	=i8
+matchKey
 
-; // c9a
-    // c9b
-  	}
+=
 
+true
+;  packetx
+= uint32 ; metadata	=
+
+    int64 ;
+Packet =
+float64
+	_x
+    =  // @lengthOf(
+	""" ++ [233]%N ++ runes_of_ascii "t" ++ [233]%N ++ runes_of_ascii """ }  root 
 packet
-i64_
+asx {
+	@rightPad( '\x00' ) @calculatedFrom( """"//
+	) @tag(
+4294967296
+    )  msg_type
+{ repeat
+	zchar[
 
-// c12
-	{  // c13
-      @calculatedFrom(// c14
-""1"" 
-    // c15
-    	) // c16
-      @tag(	// c17
-	3
+65535 ]
+	charz `{ , }`
+, char
+    roots
+,  T
+{	rootA  len ,
+    }
+	,repeat u128
+`u8 x,`
+    , } ,
+}
+root 
+packet	MetaDataX 
+{	// c
+  char[
+	4294967296 ]
+    Z9_	// `tick` ""quote"" 'q'
+      ,
+lengthOf// c
+
+	rootA
+`{ , }`	,
+	@rightPad ('0'
+	)
+    zchar[ 00 ]i8i8
+
+    ,
+
+    char[ 
+1]
+a1 , 
+// c
+  float32	crc
+`
+`
+,
+
+Z9_
+	{  f32a	{ float32//
+	len ,
+f32a {  char[
+0 ] // " ++ [27880; 37322]%N ++ runes_of_ascii "
+  pack	@calculatedFrom(
+
+    ""it's""	)
+
+,
+    T@lengthOf(// 50% %s
+f32a ) 
+// c
+	// `tick` ""quote"" 'q'
+  , i64
+lengthOf // " ++ [128512]%N ++ runes_of_ascii " emoji
+	@calculatedFrom( 
+""x y""
 
 ) 
-    // c19
-	  @lengthOf(
-// c20
-  rootA ) 	 // c22
-	  repeat 	 // c23
-int8 // c24a
-  // c24b
-  Packet	// c25a
+,zchar[4294967296 
+]
+As	@calculatedFrom(""x y""
+),
+    }
 
-	// c25b
-    `u8 x,`// c26
-	, // c27
-}// c28a
-  // c28b
+,
+	}
+,
+	repeat calculatedFrom  {
 
-  root 
-    // c29
-packet// c30a
-	  // c30b
-    stringy 
-    // c31
-{// c32a
-    	// c32b
+repeat
+Packet{x
+,
+} ,
+    } ,
+u8x
+{	metadata
+@calculatedFrom( ""1""
+
+) 
+
+// 50% %s
+  , repeat
+
+zchar[ // a // b
+		65535] Z9_ 
+, 
+    // " ++ [128512]%N ++ runes_of_ascii " emoji
+	// a // b
+	}  , match
+
+    As as
+repeatCount
+    {
+    65535 :
+roots
+	,	""packet"": uint8x
+	,3  :	A,
+
+""{,}"" :	leftPad
+
+    ,
+}
+	,
+} ,  @calculatedFrom(  // trailing space 
+
+""// no comment""
+
+    )  repeat stringy
+asx ,char[] MetaDataX 
+@lengthOf( 
+    // " ++ [128512]%N ++ runes_of_ascii " emoji
+// packet A { u8 x, }
+    A ) ,
 	@rightPad
 
 (
-    ' ' 	 // c35
-	) 	 // c36
 
-	repeat	// c37a
-  // c37b
-  char[ 	 // c38
+'0'
+)
 
-10  // c39
+    @leftPad
 
-  ]
-
-    repeatCount 	 // c41a
-  // c41b
-    ,  // c42
-	  @tag( 	 // c43a
-    // c43b
-	255 
-    // c44
-  ) // c45
-  float64 
-        // c46
-  msg_type  
-      // c47
-
-	@calculatedFrom(
-""packet""
-    // c49
-  )  // c50a
-	  // c50b
-	, 	 // c51a
-      // c51b
-    	}  // c52
-")).
-Eval vm_compute in ("<<<M1374>>>" ++ check (runes_of_ascii "options {
-    FixedStringPadFromLeft = true;
-    FixedStringPadChar = '0';
-}
-packet Leg {
-    repeat InSym93 {
-        zchar[3] Acct,
-        string Side2,
-        i32 Flags,
-        f32 Note,
-        i32 msgKind,
-    },
-    f64 Note,
-    uint16 Px,
-}
-packet Quote {
-    zchar[2] OrderId,
-}
-packet Ack {
-    repeat string lastPx,
-    zchar[4] price,
-    uint32 OrderId,
-    Quote,
-    int8 Acct,
-}
-packet Fill {
-    repeat Leg,
-    @rightPad('0') char[11] Note,
-    f64 Px,
-    @rightPad('\x00') char[5] Flags,
-    zchar[9] x,
-    string msgKind,
-}
-root packet Order {
-    Leg,
-    repeat Ack,
-    @rightPad('\x00') char[3] Side2,
-    repeat char[1] seqNo,
-    u16 clOrdID,
-    match clOrdID as Body {
-        198 : Leg,
-        23 : Quote,
-        13 : Ack,
-        159 : Fill,
-    },
-    u32 venue @calculatedFrom(""CR\
-C32""),
-}
-")).
-Eval vm_compute in ("<<<M1124>>>" ++ check (runes_of_ascii "// top
-options
-    // c0
-{ // c1
-uint8x // c2a
-  // c2b
-= 007 // c4a
-  // c4b
-; lengthOf
-    // c6
-= i8 ; // c9a
-  // c9b
-} packet i64_
-    // c12
-{ // c13
-@calculatedFrom( // c14
-""1""
-    // c15
-) // c16
-@tag( // c17
-3 )
-    // c19
-@lengthOf(
-    // c20
-rootA ) // c22
-repeat // c23
-int8 // c24a
-  // c24b
-Packet // c25a
-  // c25b
-`u8 x,` // c26
-, // c27
-} // c28a
-  // c28b
-root
-    // c29
-packet // c30a
-  // c30b
-stringy
-    // c31
-{ // c32a
-  // c32b
-@rightPad ( ' ' // c35
-) // c36
-repeat // c37a
-  // c37b
-char[ // c38
-10 // c39
-] repeatCount // c41a
-  // c41b
-, // c42
-@tag( // c43a
-  // c43b
-255
-    // c44
-) // c45
-float64
-    // c46
-msg_type
-    // c47
-@calculatedFrom( ""packet""
-    // c49
-) // c50a
-  // c50b
-, // c51a
-  // c51b
-} // c52
-")).
-Eval vm_compute in ("<<<M243>>>" ++ check (runes_of_ascii "// a // b
-packet stringy { @tag( 3 ) // trailing space 
-i64
-    len
-,@calculatedFrom( ""1""  ) char[
-0 ]
-x @lengthOf(Foo )
-,@calculatedFrom( """" )
-body
-// c
-// " ++ [128512]%N ++ runes_of_ascii " emoji
-@lengthOf(
-calculatedFrom )`line1
-line2`
-    , @calculatedFrom( ""it's"" // " ++ [128512]%N ++ runes_of_ascii " emoji
-)// packet A { u8 x, }
-match falsey
-    // packet A { u8 x, }
-    as u8x {[
-""" ++ [128512]%N ++ runes_of_ascii """
-    , // a // b
-42 , 1 ,10 ]
-: Header , } ,
-// trailing space 
-// `tick` ""quote"" 'q'
-} MetaData// " ++ [128512]%N ++ runes_of_ascii " emoji
-stringy{ f32a
-    u128 `{ , }` , char[ // a // b
-10 ]u128	, chars _x , zchar[ 65535 // trailing space 
-]/// triple
-falsey
-    `{ , }`
-    , _x i64_
-, int32
-Packet
-`crlf
-line` , } MetaData lengthOf
-{
-    }
-// trailing space 
-")).
-Eval vm_compute in ("<<<M1347>>>" ++ check (runes_of_ascii "
-options { LittleEndian=
-
-    false	;
-ArrayPrefixLenType
-    = u8
-;FixedStringPadFromLeft 
-=
-true;FixedStringPadChar
-= '0';
-
-    }
-packet
-Heartbeat  { 
-string	lastPx,
-
-    uint8
-Qty
-, i64
-    Acct 
-, char[
-
-    4	]
-Ref
-,	} 
-packet
-
-Fill{
-
-    uint8  Ref
-,
-
-    Heartbeat
-
-, f32
-
-    OrderId
-	,repeat
-	f32	x
-    ,}
-root
-
-packet 
-Order
-    {
-	zchar[2
-] OrderId,  zchar[  2 ]Acct
-,zchar[1]  Note
-
-    , zchar[ 9
-] 
-Qty ,
-	string	price
-	,
-
-    string
-tag7 , u32  x
-,match	x
-
-    as
-	Body
-{
-    123
-
-:
-	Fill,
-
-112
-    :
-
-    Heartbeat,},	u32 seqNo  @calculatedFrom(
-""CRC32"" ) , }
-")).
-Eval vm_compute in ("<<<M1564>>>" ++ check (runes_of_ascii "
-MetaData
-
-    falsey
-{ } root packet	// `tick` ""quote"" 'q'
-  o
-
-    {
-@tag( 3 	 // " ++ [128512]%N ++ runes_of_ascii " emoji
-  	)
-@calculatedFrom(
-
-""""
-	)
-@lengthOf(pack) char[
-	65535 ] falsey
-@lengthOf(	falsey
-	)
-
-    , }root
-	packet
-	roots
-    {@lengthOf(
-
-chars	)match
-Logon
-
-    as
-    chars
-    { ""`tick`"" :
-
-charz
-// packet A { u8 x, }
-    ""a\\"" :
-    Z9_ 
-007 :	trueish 
-""CRC32""
-    :msg_type  ,
-    [
-
-    3 ,
-3// `tick` ""quote"" 'q'
-  ,
-00,4294967296	, 0
-
-,
-
-7
-
-    ,//
-""x y""  , ""\" ++ [233]%N ++ runes_of_ascii """
-    //	t
-      ]
-:
-
-metadata
-    ,
-""a	b"" 
-	//x
-	// " ++ [27880; 37322]%N ++ runes_of_ascii "
-	:
-    crc	}
-,}
-")).
-Eval vm_compute in ("<<<M1333>>>" ++ check (runes_of_ascii "// top
-packet // c0
-u128 {
-    // c2
-u8 // c3a
-  // c3b
-a // c4
-, // c5a
-  // c5b
-} // c6
-root // c7a
-  // c7b
-packet Msg { u8
-    // c11
-k // c12
-,
-    // c13
-u24
-    // c14
-{ u8 Hi // c17a
-  // c17b
-, u16 // c19a
-  // c19b
-Lo ,
-    // c21
-} // c22
-, repeat // c24a
-  // c24b
-i24 { // c26
-u32 // c27a
-  // c27b
-q // c28
-,
-    // c29
-} , // c31
-u128 // c32a
-  // c32b
-, // c33a
-  // c33b
-u16 // c34
-float32x ,
-    // c36
-string // c37
-s
-    // c38
-, // c39a
-  // c39b
-} // c40
-")).
-Eval vm_compute in ("<<<M1378>>>" ++ check (runes_of_ascii "options {
-    LittleEndian = true;
-    StringPrefixLenType = u64;
-    ArrayPrefixLenType = u16;
-    FixedStringPadFromLeft = false;
-    FixedStringPadChar = ' ';
-}
-packet Logon {
-    zchar[5] Side2,
-}
-root packet Logout {
-    repeat i64 Tail,
-    Logon,
-    repeat i16 OrderId,
-    char[] venue,
-    uint64 x,
-    repeat i16 count,
-    u8 Flags,
-    match Flags as Body {
-        25 : Logon,
-    },
-    u16 Qty @calculatedFrom(""CR\
-C32""),
-}
-")).
-Eval vm_compute in ("<<<M1337>>>" ++ check (runes_of_ascii "  options{
-	LittleEndian
-	= false
-	;StringPrefixLenType	=u8
-; ArrayPrefixLenType	=
-u64;	FixedStringPadFromLeft
-
-    = false 
-;
-	FixedStringPadChar =	' ';
-
-}
-
-packet
-Reject  {
-repeat
-
-    char[ 4 ] seqNo,
-    string
-
-Px
-    ,  }
-	root
-packet Trade	{@rightPad(  '0'
-    )
-char[ 2	] 
-msgKind
-
-,	repeat
-
-    f64
-price ,
-InAcct79
-{ repeat
-Reject
-	,
-zchar[ 
-7 ] OrderId
-,
-}
-
-,	Reject ,}")).
-Eval vm_compute in ("<<<M106>>>" ++ check (runes_of_ascii "MetaData Pad
-    {
-    i16 repeatCount , // c
-f32 pack `a\`,} packet//
-f32a {@lengthOf( metadata // a // b
-)match msg_type as matchKey
-    {
-00: rootA ,  }, @rightPad ( ) match repeatCount as len {
-    [/// triple
-""x y""
-// c
-//
-,
-10] : As , 42: i64_""" ++ [128512]%N ++ runes_of_ascii """	: BodyLength
-, 7
-: f32a  ,
-    }
-    ,	@lengthOf( BodyLength )	repeat Foo `line1
-line2` , } // @lengthOf(")).
-Eval vm_compute in ("<<<M1950>>>" ++ check (runes_of_ascii "packet Header {
-
-    @calculatedFrom(	// a // b
-
-  ""a	b"") char[
-255 ]
-    falsey 
-`tab	here`	,
-int8 
-    // " ++ [27880; 37322]%N ++ runes_of_ascii "
-
-u `doc`
-,	float32
-lengthOf @calculatedFrom( ""a	b""
-	)
-
-// a // b
-
-  ,
-    @rightPad
 (
-' ')  @tag(
-3 )
+	' ' 
+)  Z9_ @calculatedFrom(
+    ""a\""b""
 
-    float64
+    ) ,
+    match  // packet A { u8 x, }
+	o
+as
+repeatCount
+{ [3  ,0123456789]
 
-    asx
+: 
+// c
+  string_  , 4294967296
+: Logon
+	,7
+: 
+o
 
     ,
-int8	metadata @lengthOf( zchar
-	) 	 // a // b
-		,Pad
-
-    f32a  ,
-} ")).
-Eval vm_compute in ("<<<M1310>>>" ++ check (runes_of_ascii "
-packet
-A
-	{
-
-u8 a
-	, } packet
-    B 
-{ u16 b
-,
-	} packet
-    C 
-{	u32 
-c,
 
 }
-	root
-    packet
+, }  packet
+body
+    {
 
-    M
-	{u16
+}
+")).
+Eval vm_compute in ("<<<M1935>>>" ++ check (runes_of_ascii "
+packet	A
+{
 
-    Kc ,
-u16 Kb
-	, u16
-    Ka
+    @rightPad
+    (' '
+    )
+	// trailing space 
+    zchar[
+
+    42  
+      // 50% %s
+	]
+MetaDataX 
+, repeat
+    int32	// 50% %s
+	Logon 
+,leftPad
+string_  // packet A { u8 x, }
 
 ,
-match  Kc
+@calculatedFrom( ""packet""
 
-    as
-X
-	{9
-:A
+)
+char[
 
-    ,
-10
-:B  , } ,match	Kb  as
-Y{	2
-: C
-,  1 :A
+    3
+]
+    // 50% %s
 
-,
+  Logon`{ , }`
+    , match
+    crc as
 
-} ,  match	Ka
-    as
-Z {
-1 :
-B	, 
-}, A 
-,B
-, C
-,
+_x
 
-    }")).
-Eval vm_compute in ("<<<M1911>>>" ++ check (runes_of_ascii "
-options
-{	LittleEndian  =
-true
+    { 
+65535
+
+    :
+	float
+    , 
+00 :
+BodyLength [ 
+""" ++ [128512]%N ++ runes_of_ascii """, 	 // `tick` ""quote"" 'q'
+  ""a\\""
+
+    ,	// packet A { u8 x, }
+		""a\""b""
+
+    , 
+""// no comment"",	""\n"",
+	255
+]:
+
+    // c
+
+MetaDataX ,0  : 
+u8x} , } options  {  zchar
+= 
+false
 
     ;
-} packet
-    Logon
-	{	u8
+	i64_=
+	zchar[
+    7]
+	;
 
-    x 
-, string
-	user , 
-} 
-packet Logout
-	{u16 reason 
-, }
-packet
-Empty { }root
-    packet Frame
-{ u16	MsgType,  u8
-BodyLen	@lengthOf(Body
-), u8 flags	,  Logon
-Body
-	,
-
-u32 
-trailer 
-,
-}
-
-")).
-Eval vm_compute in ("<<<M1247>>>" ++ check (runes_of_ascii "options { LittleEndian // c2a
-  // c2b
-= // c3
-true
-    // c4
-; } root
-    // c7
-packet P // c9a
-  // c9b
-{ repeat char // c12a
-  // c12b
-cs // c13a
-  // c13b
-, // c14a
-  // c14b
-u8
-    // c15
-x
-    // c16
-, // c17
-}
-    // c18
-")).
-Eval vm_compute in ("<<<M10>>>" ++ check (runes_of_ascii "MetaData //	t
-x{
-    } packet rootA
-//x
-//	t
-{ i64	As
-//x
-// @lengthOf(
-@lengthOf(
-    A )
-`// not a comment` ,
-}
-    options { asx =	string ; i8i8 =zchar[
-0123456789 ];	Foo =10 ; As =true
-; }
-")).
-Eval vm_compute in ("<<<M9>>>" ++ check (runes_of_ascii "
-options {body = """ ++ [28040; 24687]%N ++ runes_of_ascii """ }	packet matchKey
-{string_
-// packet A { u8 x, }
-// a // b
-@lengthOf( f32a) ,	int32 int @lengthOf(u128 )	, tag x_y_z ,}packet BodyLength /// triple
-{ }")).
-Eval vm_compute in ("<<<M73>>>" ++ check (runes_of_ascii "root
-    packet As { //
-char	charz @lengthOf( packetx
-) `{ , }`,//
-char[0123456789
-]
-MetaDataX
-// " ++ [27880; 37322]%N ++ runes_of_ascii "
-// `tick` ""quote"" 'q'
-`it's` , zchar[
-    7]o `u8 x,`
-, }")).
-Eval vm_compute in ("<<<M528>>>" ++ check (runes_of_ascii "packet uint8x
-{ match pack
-    as msg_type	{
-    0123456789 :	float
-}
-,
-} packet //	t
-a1
-    { } options {packetx
-    = '\x00'	; u128= ""a	b""  packet }
-")).
-Eval vm_compute in ("<<<M516>>>" ++ check (runes_of_ascii "packet uint8x
-{ match pack
-    as msg_type	{
-    0123456789 :	float
-}
-,
-} packet //	t
-a1
-    { } options {packetx
-    = '\x00'	; u128= = ""a	b""  ; }
-")).
-Eval vm_compute in ("<<<M427>>>" ++ check (runes_of_ascii "packet uint8x
-{ match pack
-    as msg_type	0123456789
-    { :	float
-}
-,
-} packet //	t
-a1
-    { } options {packetx
-    = '\x00'	; u128= ""a	b""  ; }
-")).
-Eval vm_compute in ("<<<M455>>>" ++ check (runes_of_ascii "packet uint8x
-{ match pack
-    as msg_type	{
-    0123456789 :	float
-}
-,
- packet //	t
-a1
-    { } options {packetx
-    = '\x00'	; u128= ""a	b""  ; }
-")).
-Eval vm_compute in ("<<<M1936>>>" ++ check (runes_of_ascii "options {
-    f32a = ""a\""b"";
-    Z9_ = ""`tick`""
-    Logon = ""CRC32""
-    u128 = f64;
-    rootA = false;
-}//	t
-
-packet lengthOf {
-}
-
-MetaData len {
-}")).
-Eval vm_compute in ("<<<M664>>>" ++ check (runes_of_ascii "// @lengthOf(
-packet i8i8 { u128 o , }
-options { MetaDataX = true;
-    BodyLength =""packet"" packet= 007
-crc //x
-= ""abc"" ;
-    msg_type =
-i16 }")).
-Eval vm_compute in ("<<<M692>>>" ++ check (runes_of_ascii "// @lengthOf(
-packet i8i8 { u128 o , }
-options { MetaDataX = true;
-    BodyLength =""packet"" x_y_z= 007
-u8 //x
-= ""abc"" ;
-    msg_type =
-i16 }")).
-Eval vm_compute in ("<<<M519>>>" ++ check (runes_of_ascii "packet uint8x
-{ match pack
-    as msg_type	{
-    0123456789 :	float
-}
-,
-} packet //	t
-a1
-    { } options {packetx
-    = '\x00'	; u128")).
-Eval vm_compute in ("<<<M1718>>>" ++ check (runes_of_ascii "MetaData leftPad {
-    chars MetaDataX,
-}
-
-packet repeatCount {
-    char[255] uint8x `" ++ [233]%N ++ runes_of_ascii "`,
-}
-
-MetaData pack {
-    // c
-    As Foo,
-}")).
-Eval vm_compute in ("<<<M1264>>>" ++ check (runes_of_ascii "packet B {
-    u8 a,
-}
-root packet P {
-    u8 K,
-    match K as Body {
-        1 : B,
-    },
-    u16 L @lengthOf(Body),
-}
-")).
-Eval vm_compute in ("<<<M1151>>>" ++ check (runes_of_ascii "MetaData leftPad { chars MetaDataX // c
-, } packet repeatCount { char[ 255 ] uint8x `" ++ [233]%N ++ runes_of_ascii "` , } MetaData pack { As Foo , }")).
-Eval vm_compute in ("<<<M1183>>>" ++ check (runes_of_ascii "MetaData leftPad { chars MetaDataX , } packet repeatCount { char[ 255 ] uint8x `" ++ [233]%N ++ runes_of_ascii "` , } MetaData pack { As // c
-Foo , }")).
-Eval vm_compute in ("<<<M894>>>" ++ check (runes_of_ascii "packet A {
-  match k as n {
-    [""a"", ""bb"", ""c c"", ""d"", ""e"", ""f"", ""g"", ""h"", ""i"", ""j"", ""k""] : B
-    2 : C
-  },
-}")).
-Eval vm_compute in ("<<<M49>>>" ++ check (runes_of_ascii "options  { f32a = true;  metadata =""CRC32"" ;
-body // " ++ [27880; 37322]%N ++ runes_of_ascii "
+    BodyLength
 =
-char ; A =
-float64	;
-} MetaData
-    rootA { }")).
-Eval vm_compute in ("<<<M1713>>>" ++ check (runes_of_ascii "packet A {
-    Inner {
-        match k as n {
-            [1, 22, 007, 4, 5] : B,
-        },
-    },
-}")).
-Eval vm_compute in ("<<<M590>>>" ++ check (runes_of_ascii "
-packet
-    asx {match u128 as lengthOf
-MetaData
-//	t
-// `tick` ""quote"" 'q'
-255 : x ,
-    } ,	}")).
-Eval vm_compute in ("<<<M891>>>" ++ check (runes_of_ascii "packet A {
-  match k as n {
-    [1, 22, 007, 4, 5, 66, 7, 8, 9, 10, 11] : B,
-    2 : C
-  },
-}")).
-Eval vm_compute in ("<<<M1426>>>" ++ check (runes_of_ascii "packet A {
-    match k as n {
-        [""a"", 22, ""c c"", 4, ""e""] : B,
-        2 : C,
-    },
-}")).
-Eval vm_compute in ("<<<M619>>>" ++ check (runes_of_ascii "
-packet
-    asx {match u128 as lengthOf
-{
-//	t
-// `tick` ""quote"" 'q'
-255 : x ,
-    } }	,")).
-Eval vm_compute in ("<<<M1413>>>" ++ check (runes_of_ascii "  packet
+    ""1"" i8i8 = 	 // @lengthOf(
+	true
 
-    A	{
-	match
+    ; 
+_x  // packet A { u8 x, }
+  = ""// no comment"";
+}	packet 	 //	t
+    crc	{ match
+As	as	zchar { 0
+:
+    leftPad
+, [	0
 
-    k as n{ [	1
+,255  ,
+""" ++ [233]%N ++ runes_of_ascii "t" ++ [233]%N ++ runes_of_ascii """,
 
+""x y""
+
+    , 
+""`tick`"" ,4294967296
+,""" ++ [233]%N ++ runes_of_ascii "t" ++ [233]%N ++ runes_of_ascii """  //	t
 ,
-22
 
-]
-	:
-B
+    """" ]
+    :stringy [
+0  ,
+    ""{,}"" 
+,""packet"",
 
-    2
-	:
-    C }  ,  }
+    3 
+,
 
-")).
-Eval vm_compute in ("<<<M553>>>" ++ check (runes_of_ascii "
+    65535 ,
 
-    asx {match u128 as lengthOf
-{
-//	t
-// `tick` ""quote"" 'q'
-255 : x ,
-    } ,	}")).
-Eval vm_compute in ("<<<M616>>>" ++ check (runes_of_ascii "
-packet
-    asx {match u128 as lengthOf
-{
-//	t
-// `tick` ""quote"" 'q'
-255 : x ,")).
-Eval vm_compute in ("<<<M1282>>>" ++ check (runes_of_ascii "root 
-packet
-
-    P  { u16	a ,
-
-u32
-
-Sum	@calculatedFrom( ""CRC32""
-	) ,
-
-} ")).
-Eval vm_compute in ("<<<M1633>>>" ++ check (runes_of_ascii "  packet
-
-    A {
-
-match
-k as n
-{
-1 
+42	, ""packet""
+, 
+0] :
+A
+    00
 :
 
-B	,
-        // c
-    } ,
+    x }	,
+@tag( 42 )
+
+    match
+chars	as
+    x
+    {
+	[ ""packet"" ,  65535] ://x
+    T
+,  """ ++ [28040; 24687]%N ++ runes_of_ascii """
+
+    :
+	float
+	,
+    """ ++ [28040; 24687]%N ++ runes_of_ascii """  :
+
+packetx
+0: 
+        /// triple
+    trueish
+
+    , """ ++ [128512]%N ++ runes_of_ascii """ 
+:	pack
+	,}
+    , // packet A { u8 x, }
+    @calculatedFrom(""abc""  )
+
+    stringy
+pack
+, }packet
+    msg_type{}
+")).
+Eval vm_compute in ("<<<M1347>>>" ++ check (runes_of_ascii "// top
+packet
+    // c0
+NewOrder {
+    // c2
+u32 // c3
+qty ,
+    // c5
+} packet
+    // c7
+Cancel { u64 // c10a
+  // c10b
+id // c11
+, // c12a
+  // c12b
+} packet // c14a
+  // c14b
+Business // c15
+{ // c16
+u8 Kind // c18
+, match // c20
+Kind // c21a
+  // c21b
+as Detail
+    // c23
+{ 1 // c25
+: NewOrder
+    // c27
+, // c28a
+  // c28b
+2 :
+    // c30
+Cancel // c31a
+  // c31b
+, }
+    // c33
+, // c34
+} packet // c36
+TcpFrame // c37a
+  // c37b
+{ // c38
+u8 // c39a
+  // c39b
+T // c40
+, // c41
+match // c42
+T as
+    // c44
+Body
+    // c45
+{ 1 : // c48a
+  // c48b
+Business , } // c51a
+  // c51b
+, // c52a
+  // c52b
+} // c53
+packet // c54
+UdpFrame {
+    // c56
+u8 // c57
+U
+    // c58
+, // c59
+match // c60a
+  // c60b
+U as // c62
+Body // c63a
+  // c63b
+{
+    // c64
+1 : // c66
+Business , // c68a
+  // c68b
+} // c69
+,
+    // c70
+Business
+    // c71
+extra
+    // c72
+, } root // c75a
+  // c75b
+packet // c76a
+  // c76b
+Wire
+    // c77
+{ // c78
+TcpFrame
+    // c79
+, // c80a
+  // c80b
+UdpFrame // c81a
+  // c81b
+, // c82
+} // c83
+")).
+Eval vm_compute in ("<<<M1732>>>" ++ check (runes_of_ascii "options {
+    LittleEndian = false;
+    StringPrefixLenType = u16;
+    ArrayPrefixLenType = u8;
+    FixedStringPadChar = '0';
+}
+
+packet Leg {
+    zchar[1] Ref,
+    repeat string count,
+    repeat InMsgkind21 {
+        repeat char[2] price,
+        uint64 sym,
+        zchar[9] msgKind,
+    },
+    zchar[5] Note,
+}
+
+packet Ack {
+    u16 seqNo,
+    repeat char[1] Acct,
+    @leftPad(' ')
+    char[4] msgKind,
+    repeat InTag747 {
+        Leg,
+    },
+    repeat string Tail,
+    Leg,
+}
+
+packet Trade {
+    u64 clOrdID,
+    repeat InLastpx24 {
+        char[10] Note,
+        char[3] Qty,
+        repeat char[2] Side2,
+        Ack,
+        repeat InX47 {
+            Ack,
+        },
+    },
+}
+
+root packet Heartbeat {
+    repeat u64 Acct,
+    string lastPx,
+    u8 Side2,
+    match Side2 as Body {
+        2 : Trade,
+        157 : Ack,
+        46 : Leg,
+    },
+    u32 sym @calculatedFrom(""CR\
+        C32""),
+}")).
+Eval vm_compute in ("<<<M1383>>>" ++ check (runes_of_ascii "options {
+    ArrayPrefixLenType = u32;
+    FixedStringPadFromLeft = false;
+    FixedStringPadChar = '0';
+}
+packet Trade {
+    repeat InVenue78 {
+        u16 tag7,
+        repeat InLastpx9 {
+            u8 pad0,
+        },
+        int64 Tail,
+        repeat InQty37 {
+            char[2] OrderId,
+            zchar[6] lastPx,
+            int64 Qty,
+        },
+        uint8 Side2,
+    },
+}
+packet Logon {
+    repeat string venue,
+    @rightPad('\x00') char[3] sym,
+    zchar[9] count,
+    zchar[7] f1,
+    Trade,
+}
+packet Logout {
+}
+root packet Reject {
+    int32 sym,
+    u8 Px,
+    u32 Tail @lengthOf(Body),
+    match Px as Body {
+        184 : Trade,
+        173 : Logon,
+        12 : Logout,
+    },
+    u32 tag7 @calculatedFrom(""CR\
+C32""),
 }
 ")).
-Eval vm_compute in ("<<<M787>>>" ++ check (runes_of_ascii "packet A {
-  match k as n {
-    [1, 22, 007] : B,
-    2 : C
-  },
-}")).
-Eval vm_compute in ("<<<M1126>>>" ++ check (runes_of_ascii "// top
-MetaData
+Eval vm_compute in ("<<<M344>>>" ++ check (runes_of_ascii "// a // b
+packet
+    rootA	{ @tag( 0 ) string falsey @calculatedFrom( ""// no comment"" ) ,
+u32 string_ ,
+} packet Header {
+    //	t
+    repeat // c
+zchar[10// " ++ [27880; 37322]%N ++ runes_of_ascii "
+] Header`" ++ [28040; 24687; 31867; 22411]%N ++ runes_of_ascii "`
+    ,
+}root
+    packet// trailing space 
+charz
+    { @tag(42 ) f32 Z9_ // packet A { u8 x, }
+@calculatedFrom(
+""a\""b"")	`it's`
+    , @calculatedFrom( ""\" ++ [233]%N ++ runes_of_ascii """ )match rootA as
+    rootA
+{ """ ++ [28040; 24687]%N ++ runes_of_ascii """ :
+    //	t
+    x 7//
+:charz }
+    ,// c
+int64
+    metadata @calculatedFrom( """ ++ [233]%N ++ runes_of_ascii "t" ++ [233]%N ++ runes_of_ascii """ ) ,match i8i8 as i64_ { 3 : Logon
+    , [
+7 , """ ++ [28040; 24687]%N ++ runes_of_ascii """ ]: repeatCount
+    // `tick` ""quote"" 'q'
+    , ""\" ++ [233]%N ++ runes_of_ascii """ : msg_type//
+, }
+    //
+    ,
+@lengthOf( Logon
+) repeat
+    leftPad  BodyLength
+,	repeat//	t
+uint8x `
+` , }
+")).
+Eval vm_compute in ("<<<M1133>>>" ++ check (runes_of_ascii "// top
+packet
     // c0
-u
+float
     // c1
 {
     // c2
-}
+@rightPad
     // c3
+(
+    // c4
+)
+    // c5
+rootA
+    // c6
+@lengthOf(
+    // c7
+trueish
+    // c8
+)
+    // c9
+,
+    // c10
+stringy
+    // c11
+@lengthOf(
+    // c12
+matchKey
+    // c13
+)
+    // c14
+,
+    // c15
+char[
+    // c16
+4294967296
+    // c17
+]
+    // c18
+pack
+    // c19
+@lengthOf(
+    // c20
+uint8x
+    // c21
+)
+    // c22
+,
+    // c23
+}
+    // c24
+root
+    // c25
+packet
+    // c26
+trueish
+    // c27
+{
+    // c28
+repeat
+    // c29
+uint64
+    // c30
+u128
+    // c31
+`say ""hi""`
+    // c32
+,
+    // c33
+}
+    // c34
 ")).
-Eval vm_compute in ("<<<M1753>>>" ++ check (runes_of_ascii "  packet 
-A { }
-	packet B{
-
-} MetaData M	{ } options
+Eval vm_compute in ("<<<M269>>>" ++ check (runes_of_ascii "options {stringy = 00//
+f32a= // " ++ [128512]%N ++ runes_of_ascii " emoji
+uint16 ;u8x = int64 ; // " ++ [27880; 37322]%N ++ runes_of_ascii "
+}
+root packet Header { body { // @lengthOf(
+string	repeatCount	@calculatedFrom( ""x y"") `// not a comment` ,
+    match roots as uint8x
+    { ""a\\"": T , } , repeat i64_ { trueish @lengthOf( x_y_z )`" ++ [28040; 24687; 31867; 22411]%N ++ runes_of_ascii "` , } , } , int64 Packet , match
+pack as
+zchar
+    {
+    ""it's""
+    : Header ,	[""a\\"" , 3] :calculatedFrom ,
+    00 : options1// packet A { u8 x, }
+, 0
+    // c
+    : u8x
+    [ 65535 , 0123456789]
+: float  255
+: uint8x,} ,	}
+    MetaData
+u {// a // b
+}
+")).
+Eval vm_compute in ("<<<M1440>>>" ++ check (runes_of_ascii "
+MetaData x_y_z
 
 {
-	}")).
-Eval vm_compute in ("<<<M1219>>>" ++ check (runes_of_ascii "packet body { i32 f32a `{ , }` , } options { } // c
+	zchar[
+
+00 
+] MetaDataX  // a // b
+		,
+
+    }root
+packet 
+u 
+{  @lengthOf( 
+// @lengthOf(
+	// a // b
+  	calculatedFrom
+	) 
+repeat
+
+    Header{ charz
+
+    @lengthOf(
+matchKey)	,repeat
+u8	// trailing space 
+	charz ,char[]float @calculatedFrom( 
+""CRC32""	)`{ , }` ,
+}
+,}
+	root packet lengthOf 
+{  @tag(
+    7
+
+    )
+
+@lengthOf( 
+o)
+
+    @tag(
+	0 
+)  BodyLength	@calculatedFrom( 
+
+    // " ++ [128512]%N ++ runes_of_ascii " emoji
+  //
+  ""a\\""
+)
+, }options{ f32a  =  ""// no comment""
+    ;}
 ")).
-Eval vm_compute in ("<<<M341>>>" ++ check (runes_of_ascii "options  { len = // " ++ [128512]%N ++ runes_of_ascii " emoji
-""packet"" int
-= ""abc""}")).
-Eval vm_compute in ("<<<M1630>>>" ++ check (runes_of_ascii "root packet A {
-    u8 x `tab
-        	x`,
-}")).
-Eval vm_compute in ("<<<M591>>>" ++ check (runes_of_ascii "
-packet
-    asx {match u128 as lengthOf")).
-Eval vm_compute in ("<<<M1647>>>" ++ check (runes_of_ascii "root packet A {
-    u8 x `
+Eval vm_compute in ("<<<M1952>>>" ++ check (runes_of_ascii "MetaData T {
+    char[0123456789] rootA `line1
+    line2`,
+    i32 Logon,
+    rootA asx,
+}
+
+root packet Header {
+    uint32 len @lengthOf(u) `
     `,
+    repeat char MetaDataX `" ++ [28040; 24687; 31867; 22411]%N ++ runes_of_ascii "`,
+    uint8x @lengthOf(zchar) `u8 x,`,
+    uint8 Z9_,
+    @lengthOf(u128)
+    @lengthOf(MetaDataX)
+    @tag(0123456789)
+    Logon @lengthOf(body),
+}
+
+options {
+    Z9_ = uint32;
+    options1 = '\x00'
+}
+
+options {
+    Foo = ""// no comment"";
+}
+
+packet float {
 }")).
-Eval vm_compute in ("<<<M1768>>>" ++ check (runes_of_ascii "packet A {
+Eval vm_compute in ("<<<M1537>>>" ++ check (runes_of_ascii "packet uint8x {
+}
+
+root packet repeatCount {
+    @rightPad('\x00')
+    // 50% %s
+    i16 roots,
+    @rightPad()
+    repeat trueish {
+        tag @calculatedFrom(""1"") `line1
+        line2`,
+        string crc `100% of %d`,
+        repeat char[] trueish `// not a comment`,
+        repeat BodyLength u `{ , }`,
+    },
+    char tag,
+    @lengthOf(body)
+    @tag(007)
+    @calculatedFrom(""" ++ [128512]%N ++ runes_of_ascii """)
+    char[007] uint8x,
+}")).
+Eval vm_compute in ("<<<M1897>>>" ++ check (runes_of_ascii "root packet rootA {
+    @tag(3)
+    T {
+        int64 pack @calculatedFrom(""a\\"") `tab	here`,
+        char[10] float,
+        u {
+            repeat f32 chars,
+        },
+        char[] f32a @lengthOf(zchar),
+    },
+    @calculatedFrom(""CRC32"")
+    u32 x_y_z @lengthOf(Header) `say ""hi""`,
+    @tag(65535)
+    char Logon `line1
+    line2`,
+    float32 zchar `// not a comment`,
+}")).
+Eval vm_compute in ("<<<M1717>>>" ++ check (runes_of_ascii "MetaData o {
+    float32 Z9_ `two words`,
+    char[0123456789] As,
+    char[4294967296] u8x `100% of %d`,/// triple
+}
+
+packet u8x {
+    @rightPad(' ')
+    match len as packetx {
+        [
+            ""a	b"", 10, 42, 007, 4294967296,
+            ""packet"", ""it's""
+        ] : x_y_z,
+        0 : o,
+    },
+}
+
+MetaData calculatedFrom {
+    char[3] len,
+}")).
+Eval vm_compute in ("<<<M1677>>>" ++ check (runes_of_ascii "packet float {
+    // c2
+    @rightPad()
+    // c5a
+    // c5b
+    rootA @lengthOf(trueish),
+    // c10
+    stringy @lengthOf(matchKey),// c15a
+    // c15b
+    char[4294967296] pack @lengthOf(uint8x),
+    // c23
+}// c24
+
+root packet trueish {
+    // c28
+    repeat uint64 u128 `say ""hi""`,
+    // c33
+}
+// c34")).
+Eval vm_compute in ("<<<M1753>>>" ++ check (runes_of_ascii "options {
+    LittleEndian = true;
+}
+
+packet Sub {
+    u8 a,
+    @calculatedFrom(""CRC16"")
+    uint64 SubSum,
+}
+
+root packet Frame {
+    u16 MsgType,
+    u16 BodyLen @lengthOf(Body),
+    Sub Body,
+    string note,
+    @calculatedFrom(""CRC16"")
+    uint64 Checksum,
+    u8 tail,
+}")).
+Eval vm_compute in ("<<<M1755>>>" ++ check (runes_of_ascii "packet
+options1
+
+{ @calculatedFrom(	""""
+) @rightPad ('\x00')
+
+    char[
+007 ]
+	msg_type
+,
+
+    i64 Header
+
+`" ++ [233]%N ++ runes_of_ascii "`
+,
+//	t
+@calculatedFrom(""packet""
+	) @calculatedFrom( ""`tick`""
+)	@calculatedFrom(
+	""a	b""
+
+    ) i32
+
+options1
+	@lengthOf(
+	Pad
+    ),
+
+}
+")).
+Eval vm_compute in ("<<<M442>>>" ++ check (runes_of_ascii "packet
+    asx { @calculatedFrom(
+""""  ) @tag( 255 )repeat
+// packet A { u8 x, }
+// trailing space 
+int16 u8x u8x
+,
+@tag(
+    //
+    007 )
+    @tag( 0
+    /// triple
+    ) @tag( 1) u
+    @lengthOf( T ),
+// `tick` ""quote"" 'q'
+//x
+} // " ++ [128512]%N ++ runes_of_ascii " emoji")).
+Eval vm_compute in ("<<<M537>>>" ++ check (runes_of_ascii "packet
+    asx { @calculatedFrom(
+""""  ) @tag( 255 )repeat
+// packet A { u8 x, }
+// trailing space 
+int16 u8x
+,\
+@tag(
+    //
+    007 )
+    @tag( 0
+    /// triple
+    ) @tag( 1) u
+    @lengthOf( T ),
+// `tick` ""quote"" 'q'
+//x
+} // " ++ [128512]%N ++ runes_of_ascii " emoji")).
+Eval vm_compute in ("<<<M498>>>" ++ check (runes_of_ascii "packet
+    asx { @calculatedFrom(
+""""  ) @tag( 255 )repeat
+// packet A { u8 x, }
+// trailing space 
+int16 u8x
+,
+@tag(
+    //
+    007 )
+    @tag( 0
+    /// triple
+    ) @tag( 1) @lengthOf(
+    u T ),
+// `tick` ""quote"" 'q'
+//x
+} // " ++ [128512]%N ++ runes_of_ascii " emoji")).
+Eval vm_compute in ("<<<M421>>>" ++ check (runes_of_ascii "packet
+    asx { @calculatedFrom(
+""""  ) @tag(  )repeat
+// packet A { u8 x, }
+// trailing space 
+int16 u8x
+,
+@tag(
+    //
+    007 )
+    @tag( 0
+    /// triple
+    ) @tag( 1) u
+    @lengthOf( T ),
+// `tick` ""quote"" 'q'
+//x
+} // " ++ [128512]%N ++ runes_of_ascii " emoji")).
+Eval vm_compute in ("<<<M1860>>>" ++ check (runes_of_ascii "// c
+options {
+    As = '0';
+    float = char[]
+    u = ""a\""b"";
+    msg_type = u32;
+    falsey = 7;/// triple
+}
+
+// a // b
+packet x_y_z {
+    T ``,
+}
+
+packet pack {
+    @leftPad()
+    rootA float,
+}// packet A { u8 x, }")).
+Eval vm_compute in ("<<<M1613>>>" ++ check (runes_of_ascii "// top
+packet FooBar {
+    // c2
+    u8 a,// c5
+}
+
+// c6
+packet foo_bar {
+    // c9
+    u16 b,// c12a
+    // c12b
+}
+
+// c13
+root packet R {
+    FooBar,// c19a
+    // c19b
+    foo_bar,// c21
+}// c22")).
+Eval vm_compute in ("<<<M134>>>" ++ check (runes_of_ascii "MetaData len
+{ x_y_z options1
+    `// not a comment` //
+,
+f32	msg_type
+    // " ++ [27880; 37322]%N ++ runes_of_ascii "
+    `
+` , char[]string_,} // c
+MetaData // `tick` ""quote"" 'q'
+packetx
+{
+string
+u128 `say ""hi""`
+, }")).
+Eval vm_compute in ("<<<M587>>>" ++ check (runes_of_ascii "MetaData u
+    { } MetaData o
+{ float uint8x uint8x
+`100% of %d` ,repeatCount u8x, string_ leftPad
+, i32
+    Foo , int64 x `two words` , calculatedFrom
+stringy `a\` ,
+}
+")).
+Eval vm_compute in ("<<<M577>>>" ++ check (runes_of_ascii "MetaData u
+    { } MetaData o
+{ { float uint8x
+`100% of %d` ,repeatCount u8x, string_ leftPad
+, i32
+    Foo , int64 x `two words` , calculatedFrom
+stringy `a\` ,
+}
+")).
+Eval vm_compute in ("<<<M550>>>" ++ check (runes_of_ascii "@leftPad u
+    { } MetaData o
+{ float uint8x
+`100% of %d` ,repeatCount u8x, string_ leftPad
+, i32
+    Foo , int64 x `two words` , calculatedFrom
+stringy `a\` ,
+}
+")).
+Eval vm_compute in ("<<<M717>>>" ++ check (runes_of_ascii "packet
+crc
+{repeat  Foo A  `u8 x,` ,	@lengthOf( uint8x ) string
+matchKey @lengthOf( " ++ [252]%N ++ runes_of_ascii "ber ) `a\`
+,
+    // c
+    }
+MetaData chars{
+leftPad
+    //	t
+    crc
+`" ++ [233]%N ++ runes_of_ascii "`
+,}")).
+Eval vm_compute in ("<<<M584>>>" ++ check (runes_of_ascii "MetaData u
+    { } MetaData o
+{ : uint8x
+`100% of %d` ,repeatCount u8x, string_ leftPad
+, i32
+    Foo , int64 x `two words` , calculatedFrom
+stringy `a\` ,
+}
+")).
+Eval vm_compute in ("<<<M1770>>>" ++ check (runes_of_ascii "packet A {
+    match k as n {
+        [
+            ""a"", ""bb"", ""c c"", ""d"", ""e"",
+            ""f"", ""g"", ""h"", ""i"", ""j""
+        ] : B,
+        2 : C,
+    },
+}")).
+Eval vm_compute in ("<<<M1658>>>" ++ check (runes_of_ascii "packet A {
+    match k as n {
+        [
+            ""a"", 22, ""c c"", 4, ""e"",
+            66, ""g"", 8, ""i"", 10
+        ] : B,
+        2 : C,
+    },
+}")).
+Eval vm_compute in ("<<<M46>>>" ++ check (runes_of_ascii "packet u8x  { @leftPad ( //	t
+'0'//x
+)
+    uint8x lengthOf
+    `line1
+line2`
+    // 50% %s
+    ,
+}
+packet msg_type{
+}MetaData u {
+}
+
+")).
+Eval vm_compute in ("<<<M1518>>>" ++ check (runes_of_ascii "packet A {
+    match k as n {
+        [
+            1, 22, 007, 4, 5,
+            66, 7, 8
+        ] : B,
+        2 : C,
+    },
+}")).
+Eval vm_compute in ("<<<M1955>>>" ++ check (runes_of_ascii "
+
+  options {  LittleEndian 
+=
+
+    true; 
+}  root packet	P
+{ 
+u16 
+a
+	,u32
+
+Sum 
+@calculatedFrom(
+""CR\
+C32"" ) , }
+")).
+Eval vm_compute in ("<<<M1210>>>" ++ check (runes_of_ascii "options { } options
+// c
+{ MetaDataX = char ; } MetaData Pad { i8 metadata , string stringy , int8 As `{ , }` , }")).
+Eval vm_compute in ("<<<M1242>>>" ++ check (runes_of_ascii "options { } options { MetaDataX = char ; } MetaData Pad { i8 metadata , string stringy , int8
+// c
+As `{ , }` , }")).
+Eval vm_compute in ("<<<M645>>>" ++ check (runes_of_ascii "MetaData u
+    { } MetaData o
+{ float uint8x
+`100% of %d` ,repeatCount u8x, string_ leftPad
+, i32
+    Foo")).
+Eval vm_compute in ("<<<M328>>>" ++ check (runes_of_ascii "// `tick` ""quote"" 'q'
+packet o {} options { }MetaData
+    trueish{ u64
+repeatCount`100% of %d`,
+    }")).
+Eval vm_compute in ("<<<M1703>>>" ++ check (runes_of_ascii "packet A {
+    Inner {
+        match k as n {
+            [1, 22, 007, 4] : B,
+        },
+    },
+}")).
+Eval vm_compute in ("<<<M120>>>" ++ check (runes_of_ascii "options { T = 42 packetx
+    = true //	t
+;x_y_z = char[] ;trueish // trailing space 
+=
+u16 }")).
+Eval vm_compute in ("<<<M857>>>" ++ check (runes_of_ascii "packet A {
+  match k as n {
+    [""a"", 22, ""c c"", 4, ""e"", 66, ""g"", 8] : B
+    2 : C
+  },
+}")).
+Eval vm_compute in ("<<<M26>>>" ++ check (runes_of_ascii "root// trailing space 
+packet uint8x
+{  string stringy
+    @lengthOf(matchKey
+)	, }")).
+Eval vm_compute in ("<<<M814>>>" ++ check (runes_of_ascii "packet A {
+  match k as n {
+    [""a"", ""bb"", ""c c"", ""d"", ""e""] : B
+    2 : C
+  },
+}")).
+Eval vm_compute in ("<<<M800>>>" ++ check (runes_of_ascii "packet A {
+  match k as n {
+    [""a"", ""bb"", ""c c"", ""d""] : B,
+    2 : C
+  },
+}")).
+Eval vm_compute in ("<<<M888>>>" ++ check (runes_of_ascii "packet A { Inner { match k as n { [1,22,007,4,5,66,7,8,9,10] : B, }, }, }")).
+Eval vm_compute in ("<<<M798>>>" ++ check (runes_of_ascii "packet A {
+  match k as n {
+    [1, 22, 007, 4] : B,
+    2 : C
+  },
+}")).
+Eval vm_compute in ("<<<M779>>>" ++ check (runes_of_ascii "packet A {
+  match k as n {
+    [""a"", ""bb""] : B
+    2 : C
+  },
+}")).
+Eval vm_compute in ("<<<M33>>>" ++ check (runes_of_ascii "root packet u // @lengthOf(
+{ Pad asx ,  calculatedFrom ,}
+")).
+Eval vm_compute in ("<<<M1718>>>" ++ check (runes_of_ascii "MetaData M {
+    u8 x `a
+    b`,
+    T t `a
+    b`,
+}")).
+Eval vm_compute in ("<<<M1254>>>" ++ check (runes_of_ascii "root packet P {
+    repeat char cs,
+    u8 x,
+}
+")).
+Eval vm_compute in ("<<<M1466>>>" ++ check (runes_of_ascii "
+root// a
+  packet  // b
+	A // c
+	{
+	}
+")).
+Eval vm_compute in ("<<<M1884>>>" ++ check (runes_of_ascii "root packet A {
     u8 x `a
     b`,
 }")).
-Eval vm_compute in ("<<<M1053>>>" ++ check (runes_of_ascii "packet A {
- u8 x `d" ++ [65279]%N ++ runes_of_ascii "`, // c" ++ [65279]%N ++ runes_of_ascii "
+Eval vm_compute in ("<<<M1441>>>" ++ check (runes_of_ascii "packet A {
+    u8 x,// c
+    u8 y,
 }")).
-Eval vm_compute in ("<<<M929>>>" ++ check (runes_of_ascii "packet A {
-    u8 x `
-`,
-}")).
-Eval vm_compute in ("<<<M1479>>>" ++ check (runes_of_ascii "packet x
-{} 
-    // c")).
-Eval vm_compute in ("<<<M162>>>" ++ check (runes_of_ascii "
-packet f32a  { }
-")).
-Eval vm_compute in ("<<<M1001>>>" ++ check (runes_of_ascii "packet A {
+Eval vm_compute in ("<<<M1490>>>" ++ check (runes_of_ascii "  // c" ++ [8287]%N ++ runes_of_ascii "
+
+  packet
+
+    A {
 }
-// c" ++ [8192]%N)).
-Eval vm_compute in ("<<<M277>>>" ++ check (runes_of_ascii "MetaData i64_ { }")).
-Eval vm_compute in ("<<<M356>>>" ++ check (runes_of_ascii "packet uint8x {}")).
-Eval vm_compute in ("<<<M750>>>" ++ check (runes_of_ascii "uk%W,3^r>l")).
-Eval vm_compute in ("<<<M293>>>" ++ check (runes_of_ascii "  
+")).
+Eval vm_compute in ("<<<M1002>>>" ++ check (runes_of_ascii "packet A {
+ u8 x `d" ++ [12288]%N ++ runes_of_ascii "`, // c" ++ [12288]%N ++ runes_of_ascii "
+}")).
+Eval vm_compute in ("<<<M1618>>>" ++ check (runes_of_ascii "// c 
+packet 
+A
+	{
+
+    } ")).
+Eval vm_compute in ("<<<M1761>>>" ++ check (runes_of_ascii "root packet msg_type {
+}")).
+Eval vm_compute in ("<<<M1126>>>" ++ check (runes_of_ascii "MetaData tag // c
+{ }")).
+Eval vm_compute in ("<<<M1030>>>" ++ check (runes_of_ascii "packet A {
+}
+// c" ++ [8232]%N)).
+Eval vm_compute in ("<<<M1008>>>" ++ check (runes_of_ascii "packet A {
+}// c" ++ [133]%N)).
+Eval vm_compute in ("<<<M1090>>>" ++ check (runes_of_ascii "packet A {
+}
+
 
 ")).
+Eval vm_compute in ("<<<M748>>>" ++ check (runes_of_ascii "&{`8[")).
+Eval vm_compute in ("<<<M723>>>" ++ check (runes_of_ascii " ")).
